@@ -86,4 +86,15 @@ PairFaults(seed) ==
                      IN {[seed |-> seed.name, kind |-> "set+trunc", at |-> p, off |-> lay[i][2], width |-> lay[i][3], val |-> v, field |-> lay[i][1]]
                           : p \in {q \in TruncPoints(lay2, seed.len) : q > lay[i][2]}}
                      : v \in FieldValues(seed.head, seed.tail, seed.len, lay[i]) } : i \in hdr }
+
+\* Two numeric fields set at once (a guard that multiplies or compares two fields - length x glyph size, width x height -
+\* is only defeated by a PAIR of values, e.g. size 0 with count 2^31-1): every unordered pair of numeric header fields x
+\* {0, 1, max-1, max}^2.
+PairValues(w) == {0, 1, MaxOf(w) - 1, MaxOf(w)}
+FieldPairFaults(seed) ==
+  LET lay == Layout(seed.ext, seed.name, seed.head, seed.tail, seed.len)
+      num == {j \in 1..Len(lay) : lay[j][4] /\ lay[j][2] >= 0 /\ lay[j][2] + lay[j][3] <= seed.len}
+  IN UNION { UNION { { [seed |-> seed.name, kind |-> "set2", at |-> 0, off |-> lay[i][2], width |-> lay[i][3], val |-> v, field |-> lay[i][1],
+                        off2 |-> lay[j][2], width2 |-> lay[j][3], val2 |-> v2] : v \in PairValues(lay[i][3]), v2 \in PairValues(lay[j][3]) }
+                     : j \in {k \in num : k > i} } : i \in num }
 =============================================================================
